@@ -17,7 +17,8 @@ RULE = ("every pair (labels, preds) with K = 1..3 classes (thorough 4), length 1
         "matrix over a value alphabet with <= 4 rows and <= 2 columns for normalize (constant "
         "columns excluded), also with columns offset by 1e8, -1e6, 1.6e9 (mean huge relative to the "
         "spread); two-call histories in which the caller overwrites its label array in place "
-        "between evaluations; non-trivial = at least one prediction is wrong (labels != preds) / "
+        "between evaluations; a sweep over many classes (K up to 300) x integer dtypes int8..int64 for "
+        "the label / prediction arrays; non-trivial = at least one prediction is wrong (labels != preds) / "
         "the matrix has >= 2 distinct rows")
 ASSUMPTIONS = [
     "K <= 3 (4), length <= 5 (6); normalize on <= 4 x 2 matrices over 4 values",
@@ -55,24 +56,34 @@ def plan(tier, seed):
     # the caller re-uses and overwrites its label array between two evaluations
     for L in (2, 3, 4):
         shards.append(("h", L))
+    # many classes x narrow integer dtypes (index arithmetic must not wrap)
+    for dt in ("int8", "uint8", "int16", "uint16", "int32", "int64"):
+        shards.append(("k", dt))
     return shards
 
 
 def ref_measures(lab, pred, K):
     n = len(lab)
+    cm = [[0] * K for _ in range(K)]
+    for l, p in zip(lab, pred):
+        cm[l][p] += 1
+    rows = [sum(r) for r in cm]
+    cols = [sum(cm[i][j] for i in range(K)) for j in range(K)]
     s = F(0)
     for cl in range(K):
-        nc = sum(1 for l in lab if l == cl)
-        fp = sum(1 for l, p in zip(lab, pred) if p == cl and l != cl)
-        fn = sum(1 for l, p in zip(lab, pred) if l == cl and p != cl)
+        nc = rows[cl]
+        fp = cols[cl] - cm[cl][cl]
+        fn = nc - cm[cl][cl]
         if n - nc > 0:
             s += F(fp, n - nc)
         s += F(fn, nc)
     acc = 1 - s / (2 * K)
-    cm = [[sum(1 for l, p in zip(lab, pred) if l == i and p == j) for j in range(K)] for i in range(K)]
-    recall = [F(cm[i][i], sum(cm[i])) for i in range(K)]
+    recall = [F(cm[i][i], rows[i]) for i in range(K)]
     pur = F(sum(max(cm[i][j] for i in range(K)) for j in range(K)), n)
-    pure = all(len({l for l, p in zip(lab, pred) if p == j}) <= 1 for j in range(K))
+    groups = {}
+    for l, p in zip(lab, pred):
+        groups.setdefault(p, set()).add(l)
+    pure = all(len(g) <= 1 for g in groups.values())
     return acc, cm, recall, pur, pure
 
 
@@ -80,7 +91,12 @@ def measure_case(prog):
     import opfython.math.general as g
     lab, pred, K = prog["labels"], prog["preds"], prog["K"]
     acc, cm, recall, pur, pure = ref_measures(lab, pred, K)
-    forms = [(np.array(lab), np.array(pred)), (list(lab), list(pred)), (np.array(lab), list(pred))]
+    if prog.get("dtype"):
+        dt = np.dtype(prog["dtype"])
+        forms = [(np.array(lab, dtype=dt), np.array(pred, dtype=dt)),
+                 (np.array(lab, dtype=dt), np.array(pred)), (np.array(lab), np.array(pred, dtype=dt))]
+    else:
+        forms = [(np.array(lab), np.array(pred)), (list(lab), list(pred)), (np.array(lab), list(pred))]
     for fi, (la, pa) in enumerate(forms):
         try:
             a = float(g.opf_accuracy(la, pa))
@@ -222,6 +238,30 @@ def run(shard, seed):
                     return res
         res.outcome(("n", r, c, alpha))
         res.sample(prog, 1)
+    elif shard[0] == "k":
+        dt = shard[1]
+        hi = int(np.iinfo(np.dtype(dt)).max)
+        for K in (2, 3, 11, 12, 13, 16, 17, 20, 100, 127, 128, 181, 182, 183, 200, 255, 256, 257, 300):
+            if K - 1 > hi:
+                continue
+            lab = list(range(K)) + [0, K - 1, K // 2]
+            for sft in (0, 1, K - 1, K // 2):
+                pred = [(l + sft) % K for l in lab]
+                prog = {"kind": "measures", "K": K, "labels": lab, "preds": pred, "dtype": dt}
+                v = run_case(prog)
+                res.evaluations += 1
+                res.states += 1
+                res.traces += 1
+                res.transitions += 12
+                if sft:
+                    res.nontrivial += 1
+                if v:
+                    v["fingerprint"] += " (narrow dtype / many classes)"
+                    res.violations.append(v)
+                    if res.full:
+                        return res
+            res.outcome(("k", dt, K))
+        res.sample({"kind": "measures", "K": 17, "dtype": dt, "labels": "0..16 + [0, 16, 8]", "preds": "(label + 1) % 17"}, 1)
     elif shard[0] == "h":
         L = shard[1]
         labs = [l for l in itertools.product(range(2), repeat=L) if set(l) == {0, 1}]
